@@ -628,12 +628,27 @@ def r_metascan(P, chk):
                   "dispatched on / assigned parser line kinds) or of the document, never at a child of the line")
     T = Tables(P)
     n = 0
-    for f in P.all_funcs:
-        if not P.first_party(f) or f.unit.base in ("scanners.c",):
-            continue
-        calls = [c for c in f.calls() if c.get("callee") in ("scan_meta_line", "scan_meta_key")]
-        if not calls:
-            continue
+
+    def line_vars(f, depth=0):
+        linevars = set()
+        for x in f.walk():
+            if x["k"] == "BinaryOperator" and x["op"] in ("==", "!="):
+                for a, b in ((x["c"][0], x["c"][1]), (x["c"][1], x["c"][0])):
+                    cv = const_value(b)
+                    if key(a).endswith("->type") and cv is not None and 0 < cv < T.nterminal and T.name(cv).startswith("LINE_"):
+                        linevars.add(key(a)[:-len("->type")])
+        linevars |= _line_vars_sw(f)
+        # a token parameter that every caller binds to one of its own line tokens
+        if depth < 2:
+            for i, prm in enumerate(f.params):
+                if prm[0] in linevars or "token" not in prm[1]:
+                    continue
+                sites = [(g, c) for g in f.unit.funcs.values() if g is not f for c in g.calls(f.name)]
+                if sites and all(1 + i < len(c["c"]) and key(c["c"][1 + i]) in line_vars(g, depth + 1) for g, c in sites):
+                    linevars.add(prm[0])
+        return linevars
+
+    def _line_vars_sw(f):
         linevars = set()
         for x in f.walk():
             if x["k"] == "SwitchStmt" and key(x["c"][0]).endswith("->type"):
@@ -648,6 +663,15 @@ def r_metascan(P, chk):
             elif x["k"] == "BinaryOperator" and x["op"] == "=" and key(x["c"][0]).endswith("->type"):
                 if any(0 < v < T.nterminal and T.name(v).startswith("LINE_") for v in rhs_constants(x["c"][1])):
                     linevars.add(key(x["c"][0])[:-len("->type")])
+        return linevars
+
+    for f in P.all_funcs:
+        if not P.first_party(f) or f.unit.base in ("scanners.c",):
+            continue
+        calls = [c for c in f.calls() if c.get("callee") in ("scan_meta_line", "scan_meta_key")]
+        if not calls:
+            continue
+        linevars = line_vars(f)
         for c in calls:
             n += 1
             a = strip(c["c"][1])
